@@ -42,7 +42,7 @@ func monitorsFor(prop string, seed uint64, idx *sim.TxIndex) []sim.Monitor {
 	case "C02":
 		return []sim.Monitor{mon.C02{}}
 	case "C03":
-		return []sim.Monitor{mon.C03{}}
+		return []sim.Monitor{mon.NewC03()}
 	case "C04":
 		return []sim.Monitor{mon.NewC04()}
 	case "C05":
